@@ -60,7 +60,9 @@ def own_ops(site):
         ops['N'] = ket_bra('full', 'full')
         ops['JW'] = ket_bra('empty', 'empty') + ket_bra('full', 'full', -1.)
         ops['dN'] = ops['N'] - site.filling * np.eye(d)
-        fermionic = {'C', 'Cd'}
+        # documented reading of Site.need_JW_string: the operator named X on site i of a term stands for (prod_{k<i} JW_k) X_i;
+        # 'JW' itself is a member of need_JW_string for every site
+        fermionic = {'C', 'Cd', 'JW'}
     elif name == 'SpinHalfFermionSite':
         # local order of the two species: up before down,  c_d = (-1)^{n_u} C_d
         occ = {'empty': (0, 0), 'up': (1, 0), 'down': (0, 1), 'full': (1, 1)}
@@ -81,7 +83,36 @@ def own_ops(site):
         ops['JW'] = np.diag([(-1.)**sum(occ[k]) for k in sorted(lab, key=lambda k: lab[k]) if k in occ])
         ops['JWu'] = np.diag([(-1.)**occ[k][0] for k in sorted(lab, key=lambda k: lab[k]) if k in occ])
         ops['JWd'] = np.diag([(-1.)**occ[k][1] for k in sorted(lab, key=lambda k: lab[k]) if k in occ])
-        fermionic = {'Cu', 'Cd', 'Cdu', 'Cdd'}
+        fermionic = {'Cu', 'Cd', 'Cdu', 'Cdd', 'JW', 'JWu', 'JWd'}
+    elif name == 'GroupedSite':
+        # own construction from the fine sites: operator X on fine site m of the group is  JW x ... x JW x X x Id x ... (fermionic X)
+        subs = [own_ops(x) for x in site.sites]
+        dims = [x.dim for x in site.sites]
+        # permutation fine kron index -> grouped basis index, read from the state labels of the grouped site
+        perm = np.zeros(d, dtype=int)
+        for combo in itertools.product(*[sorted(x.state_labels.items(), key=lambda kv: kv[1]) for x in site.sites]):
+            names = [k for k, _ in combo]
+            idxs = [v for _, v in combo]
+            fine = 0
+            for i_, d_ in zip(idxs, dims):
+                fine = fine * d_ + i_
+            label = ' '.join(f'{nm}_{lb}' for nm, lb in zip(names, site.labels))
+            perm[fine] = site.state_labels[label]
+        # (aliases of a state label give the same assignment twice)
+        P = np.zeros((d, d))
+        P[perm, np.arange(d)] = 1.
+        fermionic = set()
+        for m, (sub, ferm) in enumerate(subs):
+            for nm, mat in sub.items():
+                if nm == 'Id':
+                    continue
+                mats = [(subs[k][0]['JW'] if (k < m and nm in ferm) else np.eye(dims[k])) for k in range(len(subs))]
+                mats[m] = mat
+                ops[nm + site.labels[m]] = P @ kron_all(mats) @ P.T
+                if nm in ferm:
+                    fermionic.add(nm + site.labels[m])
+        ops['JW'] = P @ kron_all([sub[0]['JW'] for sub in subs]) @ P.T
+        fermionic.add('JW')
     else:
         raise ValueError(name)
     return ops, fermionic
